@@ -1,7 +1,7 @@
 import EaselModel.Containers.RedBlackPtrLemmas
 /-! # Lemmas: the descent loop and the duplicate / first-record / black-parent paths of the pointer-level
-`esl_red_black_doublekey_insert` (the red-parent path continues into `rebalance`, which is tied to the code by the exact
-record-level differential run and whose case analysis is proved on the inductive tree in `RedBlackLemmas`) -/
+`esl_red_black_doublekey_insert` (the red-parent path continues into `rebalance`: proved in `RedBlackPtrRebalance` / `RedBlackPtrRotate` /
+`RedBlackPtrRefine`, where the whole function is shown to refine the inductive insert) -/
 namespace EaselModel.Containers.RedBlackPtr
 open EaselModel.Containers.RedBlack
 
